@@ -65,11 +65,11 @@ StepI(ss, set) ==
              row |-> Row(ss.clock, ss.s, k2)]
 \* the implementation after a restore (D16b): a fresh simulation is built from the scenario's constants
 \* of a fresh bptk plus this step's settings; the stock history is recomputed from the start with the
-\* *current* constant
+\* scenario's constant of that fresh bptk
 StepF(ss, set, kscen) ==
     IF ss.live \/ "D16b_no_replay" \notin Dev \/ ss.clock > Stop THEN StepI(ss, set)
     ELSE LET k2 == IF set > 0 THEN set ELSE kscen
-             sNow == (ss.clock - 1) * k2
+             sNow == (ss.clock - 1) * kscen        \* a step evaluates the time before it with the values in force before its settings
          IN [ss |-> [ss EXCEPT !.k = k2, !.live = TRUE, !.clock = @ + 1, !.s = sNow + k2,
                                !.slog = Append(@, set), !.rlog = Append(@, Row(ss.clock, sNow, k2))],
              row |-> Row(ss.clock, sNow, k2)]
